@@ -262,7 +262,8 @@ deriving DecidableEq, Repr
 def restores (objs file : Objs) (mode : Mode) (k : Key) : Bool :=
   let requested := match mode with
     | .full | .onlyModels => k != 0 && (objs.lookup k).isSome      -- `for key in self.checkpointables`
-    | .select keys => keys.contains k
+    | .select keys =>       -- an empty dict is falsy: `load` then falls back to all of `self.checkpointables`
+      if keys.isEmpty then k != 0 && (objs.lookup k).isSome else keys.contains k
   let skipped := match mode with
     | .onlyModels => !isModelKey k
     | _ => false
